@@ -274,6 +274,7 @@ namespace hv
             else if (k == "emit_tape") cfg.record_tape = true;
             else if (k == "instr") { cfg.instr_interval = std::stoi(st.tok.at(1)); cfg.instr_target_mod = static_cast<int>(st.geti("target", 0)); cfg.instr_target_cap = static_cast<int>(st.geti("cap", 20000)); }   // instrumented build: extra pre-emption points
             else if (k == "maxsteps") cfg.max_steps = std::stoll(st.tok.at(1));
+            if (k == "instr" && cfg.max_steps < 5'000'000) cfg.max_steps = 5'000'000;     // every extra pre-emption point is a step
         }
         g_start_wall = cfg.start_wall_us;
         T0           = cfg.start_wall_us;   // offsets in this mode are relative to the simulated wall clock at process start
